@@ -185,6 +185,21 @@ def _run_history(task, seq, split, out, only=False):
                 s = float(sc.to(torch.float64))
                 if amax is not None and amax > (s + num.QSUB[dtname]) * qmax * (1 + 8 * u):
                     out["violations"].append(violation(PID, case, dict(fields, sub="saturates_after_one_batch"), f"saturates_after_one_batch: module {n} {which} absmax {amax!r} > scale*qmax = {s * qmax!r} after calibrating on that single batch"))
+    # a later context that only runs the last module on float inputs must leave every other module's scales alone
+    if len(qmods) >= 2 and qmods[-1][1].activation_qtype is not None:
+        others = {n: (m.input_scale.detach().clone(), m.output_scale.detach().clone()) for n, m in qmods[:-1]}
+        last = qmods[-1][1]
+        fin = last.in_features if hasattr(last, "in_features") else last.normalized_shape[-1]
+        xb = (torch.cos(torch.arange(3 * fin, dtype=torch.float64) * 0.7).reshape(3, fin) * 5.0).to(dt)
+        try:
+            with torch.no_grad(), Calibration(momentum=mom, streamline=False):
+                last(xb)
+                last(xb * 0.5)
+            for n, m in qmods[:-1]:
+                if not (num.same_bits(m.input_scale.detach(), others[n][0]) and num.same_bits(m.output_scale.detach(), others[n][1])):
+                    out["violations"].append(violation(PID, case, dict(fields, sub="foreign_scale_changed"), f"foreign_scale_changed: calibrating only the last module changed the scales of module {n}, which saw no batch (history {seq}, split {split})"))
+        except Exception as e:  # noqa
+            out["violations"].append(violation(PID, case, dict(fields, sub="raised"), f"raised: calibrating the last module alone raised {type(e).__name__}: {str(e)[:160]}"))
 
 
 def _histories(tier):
